@@ -6,7 +6,7 @@
 #pragma once
 #include "common.h"
 namespace drv {
-enum Caps { C_INSF = 1, C_UPD = 2, C_ERA = 4, C_ERAF = 8, C_EXT = 16, C_GET = 32, C_FINDF = 64, C_EMP = 128, C_MINMAX = 256, C_UNL = 512, C_CLEAR = 1024, C_TRAV = 2048, C_CHECK = 4096, C_SIZE = 8192 };
+enum Caps { C_INSF = 1, C_UPD = 2, C_ERA = 4, C_ERAF = 8, C_EXT = 16, C_GET = 32, C_FINDF = 64, C_EMP = 128, C_MINMAX = 256, C_UNL = 512, C_CLEAR = 1024, C_TRAV = 2048, C_CHECK = 4096, C_SIZE = 8192, C_NOEMPTY = 16384 };
 static thread_local int t_uniq = 0;
 inline int new_id(int key) { return key * 100 + t_id * 10 + (++t_uniq % 10); }   // unique per (thread, counter) for up to 10 inserts per key and thread
 template <class Ad> void run_set_program(const Program& P, Ad& ad, std::function<void()> pre = nullptr, std::function<void()> post = nullptr) {
@@ -27,7 +27,7 @@ template <class Ad> void run_set_program(const Program& P, Ad& ad, std::function
     else if (n == "extmin") { if (!(caps & C_MINMAX)) return; inv("extmin"); int id = 0; bool r = ad.extmin(id); ret(r, r ? id : 0); }
     else if (n == "extmax") { if (!(caps & C_MINMAX)) return; inv("extmax"); int id = 0; bool r = ad.extmax(id); ret(r, r ? id : 0); }
     else if (n == "size") { if (!(caps & C_SIZE)) return; inv("size"); ret((long)ad.size()); }
-    else if (n == "empty") { inv("empty"); ret(ad.empty()); }
+    else if (n == "empty") { if (caps & C_NOEMPTY) return; inv("empty"); ret(ad.empty()); }
     else if (n == "clear") { if (!(caps & C_CLEAR)) return; inv("clear"); ad.clear(); ret(1); }
     else if (n == "trav") { if (!(caps & C_TRAV)) return; xev("trbeg"); ad.traverse([](int key, int id) { xev("tr", key, id); }); xev("trend"); }
     else if (n == "check") { if (!(caps & C_CHECK)) return; if (!ad.consistent()) xev("crash", 1); }
